@@ -46,7 +46,9 @@ Prov == {<<OP_DUP>>, <<OP_0, OP_PICK>>, <<OP_1, OP_PICK>>, <<OP_OVER>>, <<OP_TUC
 Trans == {<<OP_1ADD>>, <<OP_1SUB>>, <<OP_NEGATE>>, <<OP_ABS>>, <<OP_NOT>>, <<OP_0NOTEQUAL>>, <<OP_INVERT>>, <<OP_BIN2NUM>>,
           <<OP_1, OP_LSHIFT>>, <<OP_1 + 8, OP_RSHIFT>>, <<OP_1 + 7, OP_LSHIFT>>, <<OP_1, OP_RSHIFT>>, <<OP_0, OP_LSHIFT>>,
           <<OP_1 + 5, OP_NUM2BIN>>, <<OP_1 + 3, OP_NUM2BIN>>, <<1, 7, OP_CAT>>, <<OP_1, OP_SPLIT>>, <<OP_SIZE>>,
-          <<OP_DUP, OP_AND>>, <<OP_DUP, OP_INVERT, OP_XOR>>, <<OP_DUP, OP_INVERT, OP_OR>>, <<OP_1, OP_ADD>>, <<82, OP_MUL>>,
+          <<OP_DUP, OP_AND>>, <<OP_DUP, OP_INVERT, OP_XOR>>, <<OP_DUP, OP_INVERT, OP_OR>>,
+          \* the same with the copied item as the *top* operand (a result built in either operand shows)
+          <<OP_DUP, OP_INVERT, OP_SWAP, OP_AND>>, <<OP_DUP, OP_INVERT, OP_SWAP, OP_XOR>>, <<OP_DUP, OP_INVERT, OP_SWAP, OP_OR>>, <<OP_1, OP_ADD>>, <<82, OP_MUL>>,
           <<82, OP_DIV>>, <<82, OP_MOD>>, <<OP_1NEGATE, OP_SUB>>, <<OP_DUP, OP_ADD>>, <<OP_1, OP_MAX>>, <<OP_1, OP_MIN>>,
           <<OP_0, OP_BOOLOR>>}
 AliasProgs == {PushMin(<<9>>) \o PushMin(x) \o pv \o tr \o tl : x \in AliasItems, pv \in Prov, tr \in Trans,
